@@ -3,3 +3,5 @@ pub mod evidence;
 pub mod dommodel;
 pub mod domx;
 pub mod forkpool;
+pub mod sched;
+pub mod c18;
